@@ -509,22 +509,36 @@ class _ConfigPath(object):
     def __exit__(self, *a):
         pass
 
-    def kwargs(self, space, dur, date, mutable=None, immutable=None):
+    def kwargs(self, space, dur, date, mutable=None, immutable=None, opts=None):
+        """opts: other [storage] settings {"readonly": "true", "enabled": "false", "expire.enabled": ..., "debug_discard": ...};
+        a value of None leaves the entry out.  Defaults: enabled = true, expire.enabled = true."""
         import os
         from allmydata import node
-        lines = ["[node]", "nickname = x", "[storage]", "enabled = true"]
+        o = {"enabled": "true", "expire.enabled": "true"}
+        o.update(opts or {})
+        if mutable is not None:
+            o["expire.mutable"] = mutable
+        if immutable is not None:
+            o["expire.immutable"] = immutable
+        lines = ["[node]", "nickname = x", "[storage]"]
+        if o.get("enabled") is not None:
+            lines.append("enabled = " + o["enabled"])
+        if o.get("readonly") is not None:
+            lines.append("readonly = " + o["readonly"])
         if space is not None:
             lines.append("reserved_space = " + space)
-        lines.append("expire.enabled = true")
+        if o.get("debug_discard") is not None:
+            lines.append("debug_discard = " + o["debug_discard"])
+        if o.get("expire.enabled") is not None:
+            lines.append("expire.enabled = " + o["expire.enabled"])
         lines.append("expire.mode = " + ("cutoff-date" if date is not None else "age"))
         if dur is not None:
             lines.append("expire.override_lease_duration = " + dur)
         if date is not None:
             lines.append("expire.cutoff_date = " + date)
-        if mutable is not None:
-            lines.append("expire.mutable = " + mutable)
-        if immutable is not None:
-            lines.append("expire.immutable = " + immutable)
+        for k in ("expire.mutable", "expire.immutable"):
+            if o.get(k) is not None:
+                lines.append("%s = %s" % (k, o[k]))
         _ConfigPath.serial += 1
         basedir = os.path.join(ctx_scratch(), "n%d" % _ConfigPath.serial)
         os.makedirs(basedir)
@@ -539,7 +553,8 @@ class _ConfigPath(object):
                     "expiration_override_lease_duration": lc.override_lease_duration,
                     "expiration_cutoff_date": lc.cutoff_date,
                     "expiration_sharetypes": tuple(lc.sharetypes_to_expire),
-                    "expiration_mode": lc.mode, "expiration_enabled": lc.expiration_enabled}
+                    "expiration_mode": lc.mode, "expiration_enabled": lc.expiration_enabled,
+                    "readonly_storage": ss.readonly_storage}
         return call(go)
 
 
@@ -561,36 +576,62 @@ def call_site(ctx):
         r = ctx.rng("site", i)
         cases.append((r.choice([None, number(r) + r.choice(WSPACE[:6]).strip("\n") + casing(r, r.choice(sorted(DOC_SUFFIXES)))]),
                       r.choice([None, number(r) + r.choice(["", " "]) + casing(r, r.choice(sorted(DOC_UNITS)))]), None))
+    # what a setting parses to - and whether a malformed value is rejected - must not depend on the other settings of the section
+    def truth(v, default):
+        return default if v is None else v.lower() in ("true", "yes", "on", "1")
+    OPTS = {"readonly": [None, "true", "false"], "enabled": ["true", "false"], "expire.enabled": ["true", "false", None],
+            "expire.mutable": [None, "true", "false"], "expire.immutable": [None, "true", "false"], "debug_discard": [None, "true"]}
+    full = ctx.tier == "thorough" or ctx.search
+    njudged = 0
     with _ConfigPath() as path:
-        for i, (space, dur, date) in enumerate(cases):
-            got = path.kwargs(space, dur, date)
+        def judge_site(space, dur, date, opts):
+            got = path.kwargs(space, dur, date, opts=opts)
             want_space = ref_size(space) if space is not None else "unset"
             want_dur = ref_duration(dur) if dur is not None else "unset"
             want_date = ref_date(date) if date is not None else "unset"
             ok_expected = None not in (want_space, want_dur, want_date)
-            ctx.case(("site", space, dur, date) if got[0] == "ok" else None, kind="client-call-site")
-            case = {"fn": "client", "reserved_space": space, "override_lease_duration": dur, "cutoff_date": date}
+            ctx.case(("site", space, dur, date, tuple(sorted((k, v) for k, v in opts.items() if v is not None))) if got[0] == "ok" else None, kind="client-call-site")
+            case = {"fn": "client", "reserved_space": space, "override_lease_duration": dur, "cutoff_date": date, "other_settings": {k: v for k, v in opts.items() if v is not None}}
             if ok_expected:
                 want = {"reserved_space": 0 if want_space == "unset" else want_space,
                         "expiration_override_lease_duration": None if want_dur == "unset" else want_dur,
-                        "expiration_cutoff_date": None if want_date == "unset" else want_date}
+                        "expiration_cutoff_date": None if want_date == "unset" else want_date,
+                        "readonly_storage": truth(opts.get("readonly"), False),
+                        "expiration_enabled": truth(opts.get("expire.enabled", "true"), False),
+                        "expiration_sharetypes": tuple(t for t, on in (("immutable", truth(opts.get("expire.immutable"), True)), ("mutable", truth(opts.get("expire.mutable"), True))) if on)}
                 obs = {k: got[1].get(k) for k in want} if got[0] == "ok" else got
                 if obs != want:
-                    ctx.oracle_fail("client-storage-config-wrong-value", "tahoe.cfg %r reaches the storage server / lease expirer as %r, documented meaning %r (None = not configured)" % (case, obs, want),
-                                    case=case, expected=repr(want), observed=repr(obs))
+                    diff = sorted(k for k in want if got[0] != "ok" or got[1].get(k) != want[k])
+                    ctx.oracle_fail("client-storage-config-wrong-value", "tahoe.cfg %r reaches the storage server / lease expirer with %s = %r, documented meaning %r (None = not configured)" % (
+                        case, diff, obs if got[0] != "ok" else {k: obs[k] for k in diff}, {k: want[k] for k in diff}), case=case, expected=repr(want), observed=repr(obs))
             elif got[0] != "ValueError":
                 ctx.oracle_fail("client-storage-config-malformed-accepted", "tahoe.cfg with a malformed value %r was not rejected with ValueError: %r" % (case, got),
                                 case=case, expected="ValueError", observed=got)
+
+        for i, (space, dur, date) in enumerate(cases):
+            judge_site(space, dur, date, {})
+            r = ctx.rng("site-opts", i)
+            for _ in range(ctx.n(2, 6)):
+                judge_site(space, dur, date, {k: r.choice(v) for k, v in OPTS.items()})
+                njudged += 1
+        # a few value cases (documented, boundary, malformed) against every combination of the boolean settings
+        crossed = [("100 M", "60 days", None), ("1024 Ki", None, "2009-01-16"), ("0", "0s", None), (None, "0 days", None), ("1 BB", None, None), ("1G", "7 dayz", None),
+                   ("1G", None, "2009-02-30"), ("1.5G", "2mo", None)]
+        import itertools
+        keys = ["readonly", "enabled", "expire.enabled"] + (["expire.mutable", "expire.immutable"] if full else [])
+        for combo in itertools.product(*[OPTS[k] for k in keys]):
+            for space, dur, date in crossed:
+                judge_site(space, dur, date, dict(zip(keys, combo)))
+                njudged += 1
         for mut, imm in [(None, None), ("true", "false"), ("false", "true"), ("false", "false"), ("True", None), (None, "no")]:
             got = path.kwargs(None, "31 days", None, mutable=mut, immutable=imm)
-            truth = lambda v: True if v is None else v.lower() in ("true", "yes", "on", "1")
-            want = tuple(t for t, on in (("immutable", truth(imm)), ("mutable", truth(mut))) if on)
+            want = tuple(t for t, on in (("immutable", truth(imm, True)), ("mutable", truth(mut, True))) if on)
             ctx.case(("sharetypes", mut, imm), kind="client-call-site")
             obs = got[1].get("expiration_sharetypes") if got[0] == "ok" else got
             if obs != want or (got[0] == "ok" and got[1].get("expiration_override_lease_duration") != 31 * DAY):
                 ctx.oracle_fail("client-storage-config-wrong-sharetypes", "tahoe.cfg expire.mutable=%s expire.immutable=%s reaches the lease expirer as %r, documented %r" % (mut, imm, got, want),
                                 case={"fn": "client-sharetypes", "mutable": mut, "immutable": imm}, expected=repr(want), observed=repr(got))
-    ctx.trace(len(cases))
+    ctx.trace(len(cases) + njudged)
 
 
 # ---- the node's local timezone must not matter: "midnight UTC at the beginning of the given day" ----
@@ -688,7 +729,7 @@ def replay(ctx, rec):
         out["model"] = ctx.coq_eval(IMPORTS, "%s %s" % (model, cps(s)))[-200:]
     elif fn == "client":
         with _ConfigPath() as path:
-            got = path.kwargs(case.get("reserved_space"), case.get("override_lease_duration"), case.get("cutoff_date"))
+            got = path.kwargs(case.get("reserved_space"), case.get("override_lease_duration"), case.get("cutoff_date"), opts=case.get("other_settings") or {})
         out["storage_server_holds"] = repr(got)
         sp, du, da = case.get("reserved_space"), case.get("override_lease_duration"), case.get("cutoff_date")
         want = {"reserved_space": 0 if sp is None else ref_size(sp), "expiration_override_lease_duration": None if du is None else ref_duration(du),
